@@ -330,7 +330,7 @@ class Relay(edzed.SBlock):
 
 def mkfsm(variant):
     ns = {'STATES': ['a', 'b'], 'EVENTS': [('go', 'a', 'b'), ('go', 'b', 'a')],
-          'calc_output': lambda self: FSM_OUT[self._state]}
+          'calc_output': lambda self: FSM_OUT[self.state]}
     if variant == 'zero_timer':
         ns['TIMERS'] = {'b': (0, 'go')}
     if variant == 'chain':
@@ -434,7 +434,9 @@ def execute(case):
             if circuit.error is not None:
                 break
         obs['error'] = None if circuit.error is None else type(circuit.error).__name__
-        obs['locked'] = [b.name for b in real if b._event_active]
+        # supplementary look at the guard flag where the implementation still has it under this name;
+        # the functional test is the final normal event sent to every block
+        obs['locked'] = [b.name for b in real if getattr(b, '_event_active', False)]
         final = []
         for b, d in zip(real, blocks):
             final.append(b.state if d['kind'] == 'fsm' else b.output)
